@@ -230,6 +230,9 @@ func expandPhiFact(f Fact, depth int) []Fact {
 				continue // this edge carries the opposite constant
 			}
 		}
+		if ph2, isPhi := e.(*ssa.Phi); isPhi && !boolPhiCanBe(ph2, f.True, map[*ssa.Phi]bool{phi: true}) {
+			continue // a flag that is only ever assigned the opposite constant on the way here
+		}
 		if cand >= 0 {
 			return nil // more than one edge can carry the value
 		}
@@ -247,6 +250,29 @@ func expandPhiFact(f Fact, depth int) []Fact {
 	}
 	out = append(out, FactsOnEdge(Edge{pred, phi.Block()})...)
 	return out
+}
+
+// boolPhiCanBe: some leaf of the phi web (constants and non-phi values) can have the given truth value.
+func boolPhiCanBe(phi *ssa.Phi, truth bool, seen map[*ssa.Phi]bool) bool {
+	if seen[phi] {
+		return false
+	}
+	seen[phi] = true
+	for _, e := range phi.Edges {
+		switch x := e.(type) {
+		case *ssa.Const:
+			if x.Value != nil && x.Value.Kind() == constant.Bool && constant.BoolVal(x.Value) == truth {
+				return true
+			}
+		case *ssa.Phi:
+			if boolPhiCanBe(x, truth, seen) {
+				return true
+			}
+		default:
+			return true
+		}
+	}
+	return false
 }
 
 // expandNilPhiFact: f says `x == nil` where x is a phi (a result variable assigned on several paths, e.g. the error
@@ -282,7 +308,7 @@ func nilPhiFacts(phi *ssa.Phi, ifi *ssa.If, depth int) []Fact {
 	}
 	cand := -1
 	for i, e := range phi.Edges {
-		if _, boxed := e.(*ssa.MakeInterface); boxed {
+		if KnownNonNil(e) {
 			continue
 		}
 		if cand >= 0 {
@@ -435,3 +461,6 @@ func cmpsNoImport(b *ssa.BasicBlock) []Cmp {
 	}
 	return out
 }
+
+// ExpandFact returns f together with what it implies through boolean / nil-valued phis.
+func ExpandFact(f Fact) []Fact { return append([]Fact{f}, expandPhiFact(f, 0)...) }
